@@ -15,33 +15,87 @@ use std::os::unix::fs::MetadataExt;
 use std::path::{Path, PathBuf};
 use std::sync::{Arc, Mutex};
 
+#[path = "../c06probe.rs"]
+mod c06probe;
+
 // ------------------------------------------------------------------ tree description
 
 #[derive(Clone, Debug, PartialEq)]
 enum T {
-    File { name: String, size: usize },
-    /// locked: mode 000 (the walk runs with fsuid nobody for such trees: read_dir fails with EACCES)
-    Dir { name: String, ign: Vec<String>, kids: Vec<T>, locked: bool },
+    /// locked: mode 000 (irrelevant for a walker, which never opens files; generated to show just that)
+    File { name: String, size: usize, locked: bool },
+    /// locked: mode 000 (the walk runs with fsuid nobody for such trees: read_dir fails with EACCES);
+    /// mount: a tmpfs is mounted on the directory before its children are created (a real other device)
+    Dir { name: String, ign: Vec<String>, kids: Vec<T>, locked: bool, mount: bool },
     /// target: "main/a/b", "alt/x" or "!" (dangling)
     Link { name: String, target: String },
+    /// a second name (hard link) for the file at `target`
+    Hard { name: String, target: String },
+    /// a named pipe
+    Fifo { name: String },
+}
+
+/// Names with odd bytes: in case texts they are written `O<i>`.
+static LONG_NAME: [u8; 200] = [b'L'; 200];
+fn odd_names() -> Vec<&'static [u8]> {
+    vec![
+        b" sp ace", "\u{fc}\u{20ac}".as_bytes(), b".dot", b"#h", b"!b", b"[x]", b"a*b", b"tr.", b"nl\nx", b"\xff\xfe", b"-dash",
+        b"a\\b", b"?", b"IGN2", &LONG_NAME,
+    ]
+}
+
+fn real_name(tok: &str) -> Vec<u8> {
+    if let Some(i) = tok.strip_prefix('O').and_then(|d| d.parse::<usize>().ok()) {
+        if let Some(n) = odd_names().get(i) {
+            return n.to_vec();
+        }
+    }
+    tok.as_bytes().to_vec()
+}
+
+fn tok_of(name: &std::ffi::OsStr) -> String {
+    use std::os::unix::ffi::OsStrExt;
+    let b = name.as_bytes();
+    if let Some(i) = odd_names().iter().position(|n| *n == b) {
+        return format!("O{}", i);
+    }
+    String::from_utf8_lossy(b).to_string()
+}
+
+fn real_path(base: &Path, rel: &str) -> PathBuf {
+    use std::os::unix::ffi::OsStrExt;
+    let mut p = base.to_path_buf();
+    for c in rel.split('/').filter(|c| !c.is_empty()) {
+        p.push(std::ffi::OsStr::from_bytes(&real_name(c)));
+    }
+    p
 }
 
 impl T {
     fn name(&self) -> &str {
         match self {
-            T::File { name, .. } | T::Dir { name, .. } | T::Link { name, .. } => name,
+            T::File { name, .. }
+            | T::Dir { name, .. }
+            | T::Link { name, .. }
+            | T::Hard { name, .. }
+            | T::Fifo { name } => name,
         }
     }
 }
 
 fn show_t(t: &T, out: &mut String) {
     match t {
-        T::File { name, size } => out.push_str(&format!("{}:{}", name, size)),
+        T::File { name, size, locked } => out.push_str(&format!("{}:{}{}", name, size, if *locked { "!" } else { "" })),
         T::Link { name, target } => out.push_str(&format!("{}>{}", name, target)),
-        T::Dir { name, ign, kids, locked } => {
+        T::Hard { name, target } => out.push_str(&format!("{}={}", name, target)),
+        T::Fifo { name } => out.push_str(&format!("{}|", name)),
+        T::Dir { name, ign, kids, locked, mount } => {
             out.push_str(name);
             if *locked {
                 out.push('!');
+            }
+            if *mount {
+                out.push('@');
             }
             if !ign.is_empty() {
                 out.push('[');
@@ -93,19 +147,38 @@ impl<'a> P<'a> {
             Some(b':') => {
                 self.i += 1;
                 let n = self.word(b"");
-                Some(T::File { name, size: n.parse().ok()? })
+                let mut locked = false;
+                if self.peek() == Some(b'!') {
+                    self.i += 1;
+                    locked = true;
+                }
+                Some(T::File { name, size: n.parse().ok()?, locked })
+            }
+            Some(b'=') => {
+                self.i += 1;
+                let t = self.word(b"/_");
+                Some(T::Hard { name, target: t })
+            }
+            Some(b'|') => {
+                self.i += 1;
+                Some(T::Fifo { name })
             }
             Some(b'>') => {
                 self.i += 1;
                 let t = self.word(b"/!_");
                 Some(T::Link { name, target: t })
             }
-            Some(b'[') | Some(b'(') | Some(b'!') => {
+            Some(b'[') | Some(b'(') | Some(b'!') | Some(b'@') => {
                 let mut ign = vec![];
                 let mut locked = false;
+                let mut mount = false;
                 if self.peek() == Some(b'!') {
                     self.i += 1;
                     locked = true;
+                }
+                if self.peek() == Some(b'@') {
+                    self.i += 1;
+                    mount = true;
                 }
                 if self.peek() == Some(b'[') {
                     self.i += 1;
@@ -125,7 +198,7 @@ impl<'a> P<'a> {
                     }
                 }
                 let kids = self.list()?;
-                Some(T::Dir { name, ign, kids, locked })
+                Some(T::Dir { name, ign, kids, locked, mount })
             }
             _ => None,
         }
@@ -170,6 +243,10 @@ struct Cfg {
     follow: bool,
     samefs: bool,
     filter: Option<Vec<String>>,
+    /// which entries the filter applies to: 'a' all, 'd' directories only, 'f' non-directories only
+    fkind: char,
+    /// sort_by_file_name on the serial walker (Some(reverse)); the parallel walker has no sorter
+    sort: Option<bool>,
 }
 
 #[derive(Clone, Debug)]
@@ -191,12 +268,19 @@ fn show_case(c: &Case) -> String {
     let mut a = String::new();
     show_ts(&c.alt, &mut a);
     format!(
-        "depth={} size={} follow={} samefs={} filter={} threads={} roots={} main={} alt={}",
+        "depth={} size={} follow={} samefs={} filter={} sort={} threads={} roots={} main={} alt={}",
         opt(&c.cfg.depth),
         opt(&c.cfg.size),
         c.cfg.follow as u8,
         c.cfg.samefs as u8,
-        c.cfg.filter.as_ref().map_or("-".to_string(), |f| f.join(".")),
+        c.cfg.filter.as_ref().map_or("-".to_string(), |f| {
+            format!("{}{}", f.join("."), if c.cfg.fkind == 'a' { String::new() } else { format!("/{}", c.cfg.fkind) })
+        }),
+        match c.cfg.sort {
+            None => "-",
+            Some(false) => "n",
+            Some(true) => "r",
+        },
         c.threads,
         c.roots.join("."),
         m,
@@ -225,7 +309,17 @@ fn parse_case(s: &str) -> Option<Case> {
             samefs: *kv.get("samefs")? == "1",
             filter: match *kv.get("filter")? {
                 "-" => None,
-                f => Some(f.split('.').map(|x| x.to_string()).collect()),
+                f => Some(f.split('/').next()?.split('.').map(|x| x.to_string()).collect()),
+            },
+            fkind: match kv.get("filter")?.split_once('/') {
+                Some((_, "d")) => 'd',
+                Some((_, "f")) => 'f',
+                _ => 'a',
+            },
+            sort: match kv.get("sort").copied() {
+                Some("n") => Some(false),
+                Some("r") => Some(true),
+                _ => None,
             },
         },
         threads: kv.get("threads")?.parse().ok()?,
@@ -244,32 +338,83 @@ struct Areas {
 
 fn target_path(areas: &Areas, t: &str) -> PathBuf {
     if let Some(rest) = t.strip_prefix("main/") {
-        areas.main.join(rest)
+        real_path(&areas.main, rest)
     } else if t == "main" {
         areas.main.clone()
     } else if let Some(rest) = t.strip_prefix("alt/") {
-        areas.alt.join(rest)
+        real_path(&areas.alt, rest)
     } else {
         areas.main.join("__missing__")
     }
 }
 
+extern "C" {
+    fn mkfifo(path: *const std::os::raw::c_char, mode: u32) -> i32;
+}
+
+/// tmpfs mounts made for the current tree (unmounted before the tree is removed)
+static MOUNTS: Mutex<Vec<PathBuf>> = Mutex::new(Vec::new());
+static MOUNT_UNAVAILABLE: Mutex<bool> = Mutex::new(false);
+
+fn umount_all() {
+    let mut m = MOUNTS.lock().unwrap();
+    while let Some(p) = m.pop() {
+        let _ = std::process::Command::new("umount").arg("-l").arg(&p).output();
+    }
+}
+
 fn materialise(areas: &Areas, dir: &Path, ts: &[T]) {
+    let mut hards = vec![];
+    materialise_rec(areas, dir, ts, &mut hards);
+    for (p, target) in hards {
+        // the target may be missing (e.g. it was created below a directory that is unreadable by now): then no link
+        let _ = std::fs::hard_link(target_path(areas, &target), &p);
+    }
+}
+
+fn materialise_rec(areas: &Areas, dir: &Path, ts: &[T], hards: &mut Vec<(PathBuf, String)>) {
+    use std::os::unix::ffi::OsStrExt;
+    use std::os::unix::fs::PermissionsExt;
     std::fs::create_dir_all(dir).unwrap();
     for t in ts {
-        let p = dir.join(t.name());
+        let p = dir.join(std::ffi::OsStr::from_bytes(&real_name(t.name())));
         match t {
-            T::File { size, .. } => std::fs::write(&p, vec![b'x'; *size]).unwrap(),
+            T::File { size, locked, .. } => {
+                std::fs::write(&p, vec![b'x'; *size]).unwrap();
+                if *locked {
+                    std::fs::set_permissions(&p, std::fs::Permissions::from_mode(0o000)).unwrap();
+                }
+            }
             T::Link { target, .. } => {
                 let _ = std::os::unix::fs::symlink(target_path(areas, target), &p);
             }
-            T::Dir { ign, kids, locked, .. } => {
-                materialise(areas, &p, kids);
+            T::Hard { target, .. } => hards.push((p, target.clone())),
+            T::Fifo { .. } => {
+                let c = std::ffi::CString::new(p.as_os_str().as_bytes()).unwrap();
+                unsafe {
+                    mkfifo(c.as_ptr(), 0o644);
+                }
+            }
+            T::Dir { ign, kids, locked, mount, .. } => {
+                std::fs::create_dir_all(&p).unwrap();
+                if *mount && !*MOUNT_UNAVAILABLE.lock().unwrap() {
+                    let ok = std::process::Command::new("mount")
+                        .args(["-t", "tmpfs", "-o", "size=1m", "none"])
+                        .arg(&p)
+                        .output()
+                        .map_or(false, |o| o.status.success());
+                    if ok {
+                        MOUNTS.lock().unwrap().push(p.clone());
+                        let _ = std::fs::set_permissions(&p, std::fs::Permissions::from_mode(0o755));
+                    } else {
+                        *MOUNT_UNAVAILABLE.lock().unwrap() = true;
+                    }
+                }
+                materialise_rec(areas, &p, kids, hards);
                 if !ign.is_empty() {
                     std::fs::write(p.join("IGN"), ign.join("\n") + "\n").unwrap();
                 }
                 if *locked {
-                    use std::os::unix::fs::PermissionsExt;
                     std::fs::set_permissions(&p, std::fs::Permissions::from_mode(0o000)).unwrap();
                 }
             }
@@ -288,6 +433,21 @@ impl Interner {
         let n = self.ids.len() + 1;
         *self.ids.entry(s.to_string()).or_insert(n)
     }
+}
+
+/// Order in which the serial walker reads directories in the current case: None = read_dir order,
+/// Some(reverse) = sort_by_file_name.  Used for the description handed to the serial models and for the F25 attribution.
+static SORT: Mutex<Option<bool>> = Mutex::new(None);
+
+fn list_dir(p: &Path) -> std::io::Result<Vec<PathBuf>> {
+    let mut v: Vec<PathBuf> = std::fs::read_dir(p)?.map(|e| e.unwrap().path()).collect();
+    if let Some(rev) = *SORT.lock().unwrap() {
+        v.sort_by(|a, b| a.file_name().cmp(&b.file_name()));
+        if rev {
+            v.reverse();
+        }
+    }
+    Ok(v)
 }
 
 fn read_ign(dir: &Path) -> Vec<String> {
@@ -326,8 +486,9 @@ fn describe(
     devs: &BTreeMap<u64, usize>,
     names: &mut Interner,
     out: &mut String,
+    denied: &mut Vec<usize>,
 ) {
-    let name = names.id(&p.file_name().unwrap().to_string_lossy());
+    let name = names.id(&tok_of(p.file_name().unwrap()));
     let lmd = std::fs::symlink_metadata(p).unwrap();
     if lmd.file_type().is_symlink() {
         let tgt = match std::fs::metadata(p) {
@@ -359,13 +520,19 @@ fn describe(
         out.push_str(&format!("(d {} {} {} (ign {})", name, ino, dev, ign.join(" ")));
         // children in read_dir order: which siblings the serial walker loses after the known
         // skip_current_dir defect depends on it
-        let kids: Vec<PathBuf> = match std::fs::read_dir(p) {
-            Ok(rd) => rd.map(|e| e.unwrap().path()).collect(),
-            Err(_) => vec![], // unreadable directory: for the model a directory without children
+        let kids: Vec<PathBuf> = match list_dir(p) {
+            Ok(v) => v,
+            Err(_) => {
+                // unreadable directory: for the model a directory without children (+ its inode in `denied`)
+                if !denied.contains(&ino) {
+                    denied.push(ino);
+                }
+                vec![]
+            }
         };
         for k in kids {
             out.push(' ');
-            describe(&k, inos, devs, names, out);
+            describe(&k, inos, devs, names, out, denied);
         }
         out.push(')');
     } else {
@@ -395,6 +562,24 @@ fn ignored_by(igns: &[Vec<String>], name: &str) -> bool {
 struct Lister<'a> {
     cfg: &'a Cfg,
     out: Vec<(char, PathBuf)>,
+    /// F25 mechanism, established independently of the walkers and of the model: the items at or below the LATER
+    /// siblings (in read_dir order) of a directory that lies on another device than its root (same_file_system)
+    /// and is also rejected by an ignore rule or the filter.  These are what the serial walker loses.
+    lost: Vec<(char, PathBuf)>,
+    losing: usize,
+    hazard_dirs: usize,
+}
+
+impl<'a> Lister<'a> {
+    fn new(cfg: &'a Cfg) -> Lister<'a> {
+        Lister { cfg, out: vec![], lost: vec![], losing: 0, hazard_dirs: 0 }
+    }
+    fn emit(&mut self, k: char, p: PathBuf) {
+        if self.losing > 0 {
+            self.lost.push((k, p.clone()));
+        }
+        self.out.push((k, p));
+    }
 }
 
 impl<'a> Lister<'a> {
@@ -404,12 +589,12 @@ impl<'a> Lister<'a> {
     fn root(&mut self, root: &Path) {
         let md = match std::fs::metadata(root) {
             Err(_) => {
-                self.out.push(('B', root.to_path_buf()));
+                self.emit('B', root.to_path_buf());
                 return;
             }
             Ok(md) => md,
         };
-        self.out.push(('e', root.to_path_buf()));
+        self.emit('e', root.to_path_buf());
         if md.is_dir() && self.depth_ok(0) {
             let root_dev = if self.cfg.samefs { Some(md.dev()) } else { None };
             self.contents(root, &mut vec![(md.dev(), md.ino())], &mut vec![read_ign(root)], 0, root_dev);
@@ -423,55 +608,85 @@ impl<'a> Lister<'a> {
         depth: usize,
         root_dev: Option<u64>,
     ) {
-        let mut kids: Vec<PathBuf> = match std::fs::read_dir(dir) {
-            Ok(rd) => rd.map(|e| e.unwrap().path()).collect(),
+        // raw read_dir order: which siblings come "later" matters for the F25 attribution (the output is sorted anyway)
+        let kids: Vec<PathBuf> = match list_dir(dir) {
+            Ok(v) => v,
             Err(_) => return,
         };
-        kids.sort();
+        let mut losing_here = false;
         for p in kids {
-            let name = p.file_name().unwrap().to_string_lossy().to_string();
-            let lmd = std::fs::symlink_metadata(&p).unwrap();
-            let md = if lmd.file_type().is_symlink() && self.cfg.follow {
-                match std::fs::metadata(&p) {
-                    Err(_) => {
-                        self.out.push(('B', p.clone()));
-                        continue;
-                    }
-                    Ok(md) => {
-                        // the loop check needs a handle on the directory: one that cannot be opened cannot be followed
-                        if md.is_dir() && std::fs::File::open(&p).is_err() {
-                            self.out.push(('B', p.clone()));
-                            continue;
-                        }
-                        if md.is_dir() && anc.contains(&(md.dev(), md.ino())) {
-                            self.out.push(('L', p.clone()));
-                            continue;
-                        }
-                        md
-                    }
-                }
-            } else {
-                lmd
-            };
-            let is_dir = md.is_dir();
-            if ignored_by(igns, &name) {
-                continue;
+            if losing_here {
+                self.losing += 1;
             }
-            if !is_dir && self.cfg.size.map_or(false, |m| md.len() > m) {
-                continue;
+            let hazard = self.child(&p, anc, igns, depth, root_dev);
+            if losing_here {
+                self.losing -= 1;
             }
-            if self.cfg.filter.as_ref().map_or(false, |f| f.contains(&name)) {
-                continue;
-            }
-            self.out.push(('e', p.clone()));
-            if is_dir && root_dev.map_or(true, |r| r == md.dev()) && self.depth_ok(depth + 1) {
-                anc.push((md.dev(), md.ino()));
-                igns.push(read_ign(&p));
-                self.contents(&p, anc, igns, depth + 1, root_dev);
-                anc.pop();
-                igns.pop();
+            if hazard {
+                self.hazard_dirs += 1;
+                losing_here = true;
             }
         }
+    }
+    /// One child of a listed directory; returns true iff it is an F25 hazard (off-device directory that is rejected).
+    fn child(
+        &mut self,
+        p: &Path,
+        anc: &mut Vec<(u64, u64)>,
+        igns: &mut Vec<Vec<String>>,
+        depth: usize,
+        root_dev: Option<u64>,
+    ) -> bool {
+        let p = p.to_path_buf();
+        let name = tok_of(p.file_name().unwrap());
+        let lmd = std::fs::symlink_metadata(&p).unwrap();
+        let md = if lmd.file_type().is_symlink() && self.cfg.follow {
+            match std::fs::metadata(&p) {
+                Err(_) => {
+                    self.emit('B', p);
+                    return false;
+                }
+                Ok(md) => {
+                    // the loop check needs a handle on the directory: one that cannot be opened cannot be followed
+                    if md.is_dir() && std::fs::File::open(&p).is_err() {
+                        self.emit('B', p);
+                        return false;
+                    }
+                    if md.is_dir() && anc.contains(&(md.dev(), md.ino())) {
+                        self.emit('L', p);
+                        return false;
+                    }
+                    md
+                }
+            }
+        } else {
+            lmd
+        };
+        let is_dir = md.is_dir();
+        let off_device = is_dir && root_dev.map_or(false, |r| r != md.dev());
+        if ignored_by(igns, &name) {
+            return off_device;
+        }
+        if !is_dir && self.cfg.size.map_or(false, |m| md.len() > m) {
+            return false;
+        }
+        let kind_ok = match self.cfg.fkind {
+            'd' => is_dir,
+            'f' => !is_dir,
+            _ => true,
+        };
+        if kind_ok && self.cfg.filter.as_ref().map_or(false, |f| f.contains(&name)) {
+            return off_device;
+        }
+        self.emit('e', p.clone());
+        if is_dir && !off_device && self.depth_ok(depth + 1) {
+            anc.push((md.dev(), md.ino()));
+            igns.push(read_ign(&p));
+            self.contents(&p, anc, igns, depth + 1, root_dev);
+            anc.pop();
+            igns.pop();
+        }
+        false
     }
 }
 
@@ -521,6 +736,7 @@ fn own_name_ign(ts: &[T], depth: usize) -> bool {
 fn has_locked(ts: &[T]) -> bool {
     ts.iter().any(|t| match t {
         T::Dir { locked, kids, .. } => *locked || has_locked(kids),
+        T::File { locked, .. } => *locked,
         _ => false,
     })
 }
@@ -538,7 +754,9 @@ fn classify(err: &ignore::Error, path: Option<&Path>) -> (char, PathBuf) {
             // link cannot be followed (both walkers open a followed directory for the loop check): like a dangling link
             let is_link =
                 path.map_or(false, |p| std::fs::symlink_metadata(p).map_or(false, |m| m.file_type().is_symlink()));
-            (if is_link { 'B' } else { 'D' }, path.map_or(PathBuf::from("?"), |p| p.to_path_buf()))
+            // without a path (walkdir's failed loop check of a followed link to an unopenable directory): a
+            // cannot-follow error as well
+            (if is_link || path.is_none() { 'B' } else { 'D' }, path.map_or(PathBuf::from("?"), |p| p.to_path_buf()))
         }
         ignore::Error::Io(_) => ('B', path.map_or(PathBuf::from("?"), |p| p.to_path_buf())),
         ignore::Error::Partial(v) if !v.is_empty() => classify(&v[0], path),
@@ -559,7 +777,20 @@ fn builder(cfg: &Cfg, roots: &[PathBuf], threads: usize) -> WalkBuilder {
         .same_file_system(cfg.samefs)
         .threads(threads);
     if let Some(f) = cfg.filter.clone() {
-        b.filter_entry(move |e| !f.contains(&e.file_name().to_string_lossy().to_string()));
+        let fkind = cfg.fkind;
+        b.filter_entry(move |e| {
+            let is_dir = e.file_type().map_or(false, |t| t.is_dir());
+            let kind_ok = match fkind {
+                'd' => is_dir,
+                'f' => !is_dir,
+                _ => true,
+            };
+            !(kind_ok && f.contains(&tok_of(e.file_name())))
+        });
+    }
+    if let Some(rev) = cfg.sort {
+        // only the serial walker has a sorter; WalkParallel ignores it
+        b.sort_by_file_name(move |a, b| if rev { b.cmp(a) } else { a.cmp(b) });
     }
     b
 }
@@ -611,7 +842,7 @@ fn canon(items: &[(char, PathBuf)], main: &Path, names: &mut Interner) -> Vec<St
         .map(|(k, p)| {
             let rel = p.strip_prefix(main).unwrap_or(p);
             let comps: Vec<String> =
-                rel.components().map(|c| names.id(&c.as_os_str().to_string_lossy()).to_string()).collect();
+                rel.components().map(|c| names.id(&tok_of(c.as_os_str())).to_string()).collect();
             format!("{}:{}", k, comps.join("/"))
         })
         .collect();
@@ -625,18 +856,22 @@ struct Env {
     scratch: PathBuf,
     shm: Option<PathBuf>,
     counter: usize,
-    current: Option<(String, Areas, String, Interner, HashMap<PathBuf, usize>, BTreeMap<u64, usize>)>,
+    current: Option<(String, Areas, String, Interner, HashMap<PathBuf, usize>, BTreeMap<u64, usize>, Vec<usize>)>,
 }
 
 impl Env {
-    fn ensure(&mut self, c: &Case) -> (PathBuf, String, &mut Interner, &HashMap<PathBuf, usize>, &BTreeMap<u64, usize>) {
+    fn ensure(
+        &mut self,
+        c: &Case,
+    ) -> (PathBuf, PathBuf, String, &mut Interner, &HashMap<PathBuf, usize>, &BTreeMap<u64, usize>, Vec<usize>) {
         let mut key = String::new();
         show_ts(&c.main, &mut key);
         key.push('|');
         show_ts(&c.alt, &mut key);
-        let reuse = matches!(&self.current, Some((k, _, _, _, _, _)) if *k == key);
+        let reuse = matches!(&self.current, Some((k, _, _, _, _, _, _)) if *k == key);
         if !reuse {
-            if let Some((_, a, _, _, _, _)) = self.current.take() {
+            if let Some((_, a, _, _, _, _, _)) = self.current.take() {
+                umount_all();
                 let _ = std::fs::remove_dir_all(a.main.parent().unwrap());
                 let _ = std::fs::remove_dir_all(a.alt.parent().unwrap());
             }
@@ -658,27 +893,47 @@ impl Env {
             let mut names = Interner { ids: HashMap::new() };
             let mut forest = String::new();
             // forest = the two area directories (so that links to an area root resolve)
-            describe(&areas.main, &inos, &devs, &mut names, &mut forest);
+            let mut denied = vec![];
+            describe(&areas.main, &inos, &devs, &mut names, &mut forest, &mut denied);
             forest.push(' ');
-            describe(&areas.alt, &inos, &devs, &mut names, &mut forest);
-            self.current = Some((key, areas, forest, names, inos, devs));
+            describe(&areas.alt, &inos, &devs, &mut names, &mut forest, &mut denied);
+            self.current = Some((key, areas, forest, names, inos, devs, denied));
         }
-        let (_, areas, forest, names, inos, devs) = self.current.as_mut().unwrap();
-        (areas.main.clone(), forest.clone(), names, inos, devs)
+        let (_, areas, forest, names, inos, devs, denied) = self.current.as_mut().unwrap();
+        (areas.main.clone(), areas.alt.clone(), forest.clone(), names, inos, devs, denied.clone())
     }
 }
 
 fn run_case(c: &Case, text: &str, env: &mut Env, drv: &mut Driver, rep: &mut Report) {
     rep.eval();
-    let (main, forest, names, inos, devs) = env.ensure(c);
+    let (main, alt_dir, forest, names, inos, devs, denied_inos) = env.ensure(c);
     let locked_tree = has_locked(&c.main);
     let uid_guard = FsUid::drop_if(locked_tree);
-    let roots: Vec<PathBuf> = c.roots.iter().map(|r| main.join(r)).collect();
+    // with sort_by_file_name the serial walker reads directories in sorted order: the description handed to the
+    // models and the F25 attribution of the listing follow that order (everything else is order-insensitive)
+    struct SortGuard;
+    impl Drop for SortGuard {
+        fn drop(&mut self) {
+            *SORT.lock().unwrap() = None;
+        }
+    }
+    *SORT.lock().unwrap() = c.cfg.sort;
+    let _sort_guard = SortGuard;
+    let forest = if c.cfg.sort.is_some() {
+        let mut f = String::new();
+        describe(&main, inos, devs, names, &mut f, &mut vec![]);
+        f.push(' ');
+        describe(&alt_dir, inos, devs, names, &mut f, &mut vec![]);
+        f
+    } else {
+        forest
+    };
+    let roots: Vec<PathBuf> = c.roots.iter().map(|r| real_path(&main, r)).collect();
     let mut root_sx: Vec<String> = vec![];
     for r in &roots {
         if std::fs::symlink_metadata(r).is_ok() {
             let mut sx = String::new();
-            describe(r, inos, devs, names, &mut sx);
+            describe(r, inos, devs, names, &mut sx, &mut vec![]);
             root_sx.push(sx);
         }
     }
@@ -687,17 +942,18 @@ fn run_case(c: &Case, text: &str, env: &mut Env, drv: &mut Driver, rep: &mut Rep
         return;
     }
     let cfg_sx = format!(
-        "(cfg (depth {}) (size {}) (follow {}) (samefs {}) (filter {}))",
+        "(cfg (depth {}) (size {}) (follow {}) (samefs {}) (filter {}) (fkind {}))",
         opt(&c.cfg.depth),
         opt(&c.cfg.size),
         c.cfg.follow as u8,
         c.cfg.samefs as u8,
         c.cfg.filter.as_ref().map_or("-".to_string(), |f| {
             f.iter().map(|n| names.id(n).to_string()).collect::<Vec<_>>().join(" ")
-        })
+        }),
+        c.cfg.fkind
     );
     // the roots are given relative to the main area: paths start with the root's name
-    let mut l = Lister { cfg: &c.cfg, out: vec![] };
+    let mut l = Lister::new(&c.cfg);
     for r in &roots {
         l.root(r);
     }
@@ -705,6 +961,8 @@ fn run_case(c: &Case, text: &str, env: &mut Env, drv: &mut Driver, rep: &mut Rep
     let ser = canon(&real_serial(&c.cfg, &roots, limit), &main, names);
     let par = canon(&real_parallel(&c.cfg, &roots, c.threads, limit), &main, names);
     let lst = canon(&l.out, &main, names);
+    let lost = canon(&l.lost, &main, names);
+    let lister_hazards = l.hazard_dirs;
     drop(uid_guard);
     // Error visits for unreadable directories (EACCES) are outside the property (they are not entries) and are
     // not modelled (an unreadable directory is a directory without children): they are counted, not compared.
@@ -714,8 +972,77 @@ fn run_case(c: &Case, text: &str, env: &mut Env, drv: &mut Driver, rep: &mut Rep
     if locked_tree {
         rep.branch("tree-with-unreadable-dir");
     }
+    {
+        fn scan(ts: &[T], f: &mut dyn FnMut(&T)) {
+            for t in ts {
+                f(t);
+                if let T::Dir { kids, .. } = t {
+                    scan(kids, f);
+                }
+            }
+        }
+        let (mut mnt, mut odd, mut hard, mut fifo, mut lf) = (false, false, false, false, false);
+        scan(&c.main, &mut |t| {
+            odd |= t.name().starts_with('O');
+            match t {
+                T::Dir { mount, .. } => mnt |= *mount,
+                T::Hard { .. } => hard = true,
+                T::Fifo { .. } => fifo = true,
+                T::File { locked, .. } => lf |= *locked,
+                _ => {}
+            }
+        });
+        for (b, n) in [
+            (mnt && !*MOUNT_UNAVAILABLE.lock().unwrap(), "tree-with-real-mount-point"),
+            (odd, "tree-with-odd-byte-names"),
+            (hard, "tree-with-hard-link"),
+            (fifo, "tree-with-fifo"),
+            (lf, "tree-with-unreadable-file"),
+            (c.cfg.sort.is_some(), "opt:sort_by_file_name(serial)"),
+            (c.cfg.fkind != 'a' && c.cfg.filter.is_some(), "opt:filter_entry-by-kind"),
+            (c.threads == 0, "threads:0(auto)"),
+        ] {
+            if b {
+                rep.branch(n);
+            }
+        }
+    }
     if own_name_ign(&c.main, 0) {
         rep.branch("sub-directory-whose-own-ignore-file-matches-its-name");
+    }
+    if locked_tree {
+        // the rule for these visits (Spec/ReachDenied.lean): parallel = every reported unreadable directory on the root's
+        // device, serial = only those whose listing is actually read (within max_depth)
+        let dl: Vec<String> = denied_inos.iter().map(|i| i.to_string()).collect();
+        let mut askd = |which: &str| -> Vec<String> {
+            let r = drv.ask(&format!(
+                "c06.denied {} {} (denied {}) (forest {}) (roots {})",
+                which,
+                cfg_sx,
+                dl.join(" "),
+                forest,
+                root_sx.join(" ")
+            ));
+            if r == "-" {
+                vec![]
+            } else {
+                r.split_whitespace().map(|x| x.to_string()).collect()
+            }
+        };
+        let m_sd = askd("ser");
+        let m_pd = askd("par");
+        if m_sd != ser_denied || m_pd != par_denied {
+            rep.violation(Violation {
+                kind: "impl_vs_model".into(),
+                class: "".into(),
+                tie: "EACCES error visits of Walk / WalkParallel vs Spec.ReachDenied.deniedVisits (c06.denied)".into(),
+                case: text.into(),
+                detail: format!(
+                    "serial real {:?} model {:?}; parallel real {:?} model {:?}",
+                    ser_denied, m_sd, par_denied, m_pd
+                ),
+            });
+        }
     }
     if !par_denied.is_empty() || !ser_denied.is_empty() {
         rep.branch("unreadable-dir-error-visit");
@@ -748,11 +1075,11 @@ fn run_case(c: &Case, text: &str, env: &mut Env, drv: &mut Driver, rep: &mut Rep
             v
         }
     };
-    let (ser, par, lst) = if locked_tree {
+    let (ser, par, lst, lost) = if locked_tree {
         let f = |v: Vec<String>| -> Vec<String> { v.into_iter().filter(|x| !x.starts_with("B:")).collect() };
-        (f(ser), f(par), f(lst))
+        (f(ser), f(par), f(lst), f(lost))
     } else {
-        (ser, par, lst)
+        (ser, par, lst, lost)
     };
     let m_ser = ask(drv, "serial");
     let m_ev = ask(drv, "events");
@@ -760,7 +1087,30 @@ fn run_case(c: &Case, text: &str, env: &mut Env, drv: &mut Driver, rep: &mut Rep
     let m_reach = ask(drv, "reach");
     let guard = ask(drv, "guard");
     let hazard = guard == vec!["0".to_string()];
-    let class = if hazard { "skipped-dir-on-other-filesystem" } else { "" };
+    // Attribution to the known finding F25 only when its mechanism is demonstrably at work: same_file_system is on,
+    // the independent listing found a directory on another device that is also rejected by a rule / the filter, the
+    // parallel walker is right (= listing), and what the SERIAL walker misses is exactly the items at or below the
+    // later siblings (read_dir order) of such a directory — nothing else missing, nothing extra.
+    let attributed = {
+        let mut ser_plus_lost: Vec<String> = ser.iter().cloned().chain(lost.iter().cloned()).collect();
+        ser_plus_lost.sort();
+        c.cfg.samefs && lister_hazards > 0 && !lost.is_empty() && par == lst && ser_plus_lost == lst
+    };
+    let class = if attributed { "skipped-dir-on-other-filesystem" } else { "" };
+    if attributed {
+        rep.branch("class:skipped-dir-on-other-filesystem:attributed");
+    } else if hazard && ser != par {
+        rep.branch("class:skipped-dir-on-other-filesystem:hazard-present-but-mechanism-not-established");
+    }
+    if (lister_hazards > 0) != hazard {
+        rep.violation(Violation {
+            kind: "impl_vs_model".into(),
+            class: "".into(),
+            tie: "independent listing's F25 hazard detection vs Spec.Reach.hazardFree (c06.walk guard)".into(),
+            case: text.into(),
+            detail: format!("listing found {} hazard directories, model guard says hazard={}", lister_hazards, hazard),
+        });
+    }
 
     // evidence
     let count = |v: &Vec<String>, k: &str| v.iter().filter(|x| x.starts_with(k)).count();
@@ -776,7 +1126,7 @@ fn run_case(c: &Case, text: &str, env: &mut Env, drv: &mut Driver, rep: &mut Rep
     if c.cfg.samefs && lst.len() < {
         let mut c2 = c.cfg.clone();
         c2.samefs = false;
-        let mut l2 = Lister { cfg: &c2, out: vec![] };
+        let mut l2 = Lister::new(&c2);
         for r in &roots {
             l2.root(r);
         }
@@ -904,6 +1254,10 @@ struct Gen<'a> {
     links: Vec<String>,
     has_alt: bool,
     allow_locked: bool,
+    allow_mount: bool,
+    /// prefixes ("main/r0/a/") of the directories a tmpfs is mounted on
+    mounted: Vec<String>,
+    under_mount: bool,
 }
 
 impl<'a> Gen<'a> {
@@ -913,6 +1267,8 @@ impl<'a> Gen<'a> {
         if !self.rng.chance(1, 3) {
             return vec![];
         }
+        // a name with odd bytes is never written into an ignore file (it would need gitignore escaping)
+        let own = if own.starts_with('O') { "a" } else { own };
         let n = self.rng.range(1, 3);
         (0..n)
             .map(|_| match self.rng.below(8) {
@@ -932,7 +1288,14 @@ impl<'a> Gen<'a> {
             if *budget == 0 {
                 break;
             }
-            let name = *self.rng.pick(&NAMES);
+            // now and then a name with odd bytes (written O<i> in case texts)
+            let odd_tok;
+            let name: &str = if self.rng.chance(1, 12) {
+                odd_tok = format!("O{}", self.rng.below(odd_names().len()));
+                Box::leak(odd_tok.clone().into_boxed_str())
+            } else {
+                *self.rng.pick(&NAMES)
+            };
             if used.contains(&name) {
                 continue;
             }
@@ -941,14 +1304,36 @@ impl<'a> Gen<'a> {
             let p = format!("{}/{}", path, name);
             let k = self.rng.below(10);
             if k < 4 {
-                self.files.push(p);
-                out.push(T::File { name: name.into(), size: self.rng.below(9) });
+                match self.rng.below(12) {
+                    0 if !self.files.is_empty() && !self.under_mount => {
+                        // a second name for an existing file (same area, not across a mount point)
+                        let t = self.rng.pick(&self.files).clone();
+                        if t.starts_with("main/") && !self.mounted.iter().any(|m| t.starts_with(m.as_str())) {
+                            out.push(T::Hard { name: name.into(), target: t });
+                        } else {
+                            out.push(T::File { name: name.into(), size: 1, locked: false });
+                        }
+                    }
+                    1 => out.push(T::Fifo { name: name.into() }),
+                    _ => {
+                        self.files.push(p);
+                        let locked = self.allow_locked && self.rng.chance(1, 6);
+                        out.push(T::File { name: name.into(), size: self.rng.below(9), locked });
+                    }
+                }
             } else if k < 8 {
                 self.dirs.push(p.clone());
                 let ign = self.gen_ign(name);
                 let locked = self.allow_locked && self.rng.chance(1, 4);
+                let mount = !locked && self.allow_mount && self.mounted.len() < 2 && self.rng.chance(1, 5);
+                if mount {
+                    self.mounted.push(format!("{}/", p));
+                }
+                let was_under = self.under_mount;
+                self.under_mount = was_under || mount;
                 let marks = (self.dirs.len(), self.files.len(), self.links.len());
                 let kids = self.kids(&p, depth + 1, budget);
+                self.under_mount = was_under;
                 if locked {
                     // neither an unreadable directory nor anything below it may be a link target
                     self.dirs.truncate(marks.0);
@@ -956,7 +1341,7 @@ impl<'a> Gen<'a> {
                     self.files.truncate(marks.1);
                     self.links.truncate(marks.2);
                 }
-                out.push(T::Dir { name: name.into(), ign, kids, locked });
+                out.push(T::Dir { name: name.into(), ign, kids, locked, mount });
             } else {
                 let target = match self.rng.below(7) {
                     0 => "!".to_string(),
@@ -977,7 +1362,18 @@ impl<'a> Gen<'a> {
 
 fn gen_case(rng: &mut Rng, has_alt: bool) -> (Vec<T>, Vec<T>, Vec<String>) {
     let allow_locked = rng.chance(1, 5);
-    let mut g = Gen { rng, dirs: vec![], files: vec![], links: vec![], has_alt, allow_locked };
+    let allow_mount = rng.chance(1, 6);
+    let mut g = Gen {
+        rng,
+        dirs: vec![],
+        files: vec![],
+        links: vec![],
+        has_alt,
+        allow_locked,
+        allow_mount,
+        mounted: vec![],
+        under_mount: false,
+    };
     let nroots = g.rng.range(1, 3);
     let mut main = vec![];
     let mut roots = vec![];
@@ -988,7 +1384,7 @@ fn gen_case(rng: &mut Rng, has_alt: bool) -> (Vec<T>, Vec<T>, Vec<String>) {
         match g.rng.below(8) {
             0 => {
                 g.files.push(p);
-                main.push(T::File { name: name.clone(), size: g.rng.below(9) });
+                main.push(T::File { name: name.clone(), size: g.rng.below(9), locked: false });
             }
             1 if !g.dirs.is_empty() => {
                 let t = g.rng.pick(&g.dirs).clone();
@@ -998,7 +1394,11 @@ fn gen_case(rng: &mut Rng, has_alt: bool) -> (Vec<T>, Vec<T>, Vec<String>) {
                 g.dirs.push(p.clone());
                 let ign = g.gen_ign(&name);
                 let kids = g.kids(&p, 1, &mut budget);
-                main.push(T::Dir { name: name.clone(), ign, kids, locked: false });
+                let mount = g.allow_mount && g.rng.chance(1, 6);
+                if mount {
+                    g.mounted.push(format!("{}/", p));
+                }
+                main.push(T::Dir { name: name.clone(), ign, kids, locked: false, mount });
             }
         }
         roots.push(name);
@@ -1006,18 +1406,22 @@ fn gen_case(rng: &mut Rng, has_alt: bool) -> (Vec<T>, Vec<T>, Vec<String>) {
     // the other area: o(p(...), files) with possibly a link back into main (cross-device cycle)
     let alt = if has_alt {
         let mut ok = vec![
-            T::File { name: "q".into(), size: g.rng.below(9) },
+            T::File { name: "q".into(), size: g.rng.below(9), locked: false },
             T::Dir {
                 name: "p".into(),
                 locked: false,
+                mount: false,
                 ign: vec![],
-                kids: vec![T::File { name: "a".into(), size: 1 }, T::File { name: "m".into(), size: 7 }],
+                kids: vec![
+                    T::File { name: "a".into(), size: 1, locked: false },
+                    T::File { name: "m".into(), size: 7, locked: false },
+                ],
             },
         ];
         if g.rng.chance(1, 2) {
             ok.push(T::Link { name: "back".into(), target: "main/r0".into() });
         }
-        vec![T::Dir { name: "o".into(), ign: vec![], kids: ok, locked: false }]
+        vec![T::Dir { name: "o".into(), ign: vec![], kids: ok, locked: false, mount: false }]
     } else {
         vec![]
     };
@@ -1035,6 +1439,8 @@ fn gen_cfg(rng: &mut Rng) -> Cfg {
             2 => Some(vec!["m".to_string()]),
             _ => Some(vec![rng.pick(&NAMES).to_string(), rng.pick(&NAMES).to_string()]),
         },
+        fkind: *rng.pick(&['a', 'a', 'd', 'f']),
+        sort: *rng.pick(&[None, None, None, Some(false), Some(true)]),
     }
 }
 
@@ -1045,7 +1451,7 @@ fn all_cfgs() -> Vec<Cfg> {
             for follow in [false, true] {
                 for samefs in [false, true] {
                     for filter in [None, Some(vec!["m".to_string(), "c".to_string()])] {
-                        v.push(Cfg { depth, size, follow, samefs, filter: filter.clone() });
+                        v.push(Cfg { depth, size, follow, samefs, filter: filter.clone(), fkind: 'a', sort: None });
                     }
                 }
             }
@@ -1054,7 +1460,7 @@ fn all_cfgs() -> Vec<Cfg> {
     v
 }
 
-fn special_trees(has_alt: bool) -> Vec<(String, String, String)> {
+fn special_trees(has_alt: bool, thorough: bool) -> Vec<(String, String, String)> {
     // (main, alt, roots)
     let mut chain = String::from("k:1");
     for i in (0..12).rev() {
@@ -1077,6 +1483,19 @@ fn special_trees(has_alt: bool) -> Vec<(String, String, String)> {
         // unreadable directories (mode 000, walked with fsuid nobody), one of them reached through a link as well
         ("(r0(a:1,k!(x:1,y(z:1)),b(c!(),d:2,l>main/r0/k),m!(q:1),z:3),r1!(a:1))".to_string(), "()".to_string(), "r0.r1".to_string()),
     ];
+    // names with odd bytes, a hard link, a named pipe, an unreadable file; a real mount point (tmpfs) below the root
+    v.push(("(r0(O0(O1:1,O9:2),O2:1,O8(a:1),O5(O6:1),O10:3,O14:1,h=main/r0/O2,p|,u:4!,O4:1))".to_string(), "()".to_string(), "r0".to_string()));
+    v.push(("(r0(a:1,b:2,c:1,m@(q:1,s(t:1)),n:3,x:1,y:1,z:1,l>main/r0/m))".to_string(), "()".to_string(), "r0".to_string()));
+    if thorough {
+        // very deep and very wide
+        let mut chain = String::from("k:1");
+        for i in (0..150).rev() {
+            chain = format!("c{}({})", i, chain);
+        }
+        v.push((format!("(r0({}))", chain), "()".to_string(), "r0".to_string()));
+        let fan: Vec<String> = (0..2500).map(|i| format!("k{}:{}", i, i % 3)).collect();
+        v.push((format!("(r0({}))", fan.join(",")), "()".to_string(), "r0".to_string()));
+    }
     if has_alt {
         v.push(("(r0(a:1,b:2,m>alt/o,n:3,x>alt/o/p,z:1,c(d:1)))".to_string(), alt.to_string(), "r0".to_string()));
         v.push(("(r0(a:1,c>alt/o,z:1),r1>alt/o)".to_string(), alt.to_string(), "r0.r1".to_string()));
@@ -1089,12 +1508,19 @@ fn main() {
     let mut drv = Driver::spawn(&args.driver);
     let mut rep = Report::new(
         "C06",
-        "Generated trees (random; plus empty dirs, a chain of depth 12, fan-out 50, several roots, a file root, link \
-         roots, links to files / dirs / ancestors / each other / nowhere, ignore files, directories on another device \
-         reachable through links when /dev/shm is a separate file system) x combinations of max_depth, max_filesize, \
-         follow_links, same_file_system, filter_entry (all 96 combinations on the special trees, random ones \
-         elsewhere) x threads 1..16. Compared as sorted multisets. Non-trivial: >= 2 options set and >= 3 entries \
-         reachable. Distinct by case text.",
+        "Modelled stream: generated trees (random; plus empty dirs, chains of depth 12 (150 thorough), fan-out 50 (2500 \
+         thorough), several roots, file roots, link roots, links to files / dirs / ancestors / each other / nowhere, \
+         hard links, named pipes, unreadable files and directories (walked with fsuid nobody), names with odd bytes \
+         (spaces, non-ASCII, invalid UTF-8, glob metacharacters, newline, 200 bytes), ignore files at every level \
+         (name, *, !name, own name), directories on another device: through links into /dev/shm and as real tmpfs \
+         mount points when the harness may mount) x combinations of max_depth, max_filesize, follow_links, \
+         same_file_system, filter_entry (by name / for directories only / for files only), sort_by_file_name on the \
+         serial walker (all 96 option combinations on the special trees, random ones elsewhere) x threads 0..16. \
+         Probe stream (real walkers against each other and the listing, no model): roots given as `.`, `./x`, `x/`, \
+         `x/.`, `x/../x`, relative, nested inside another root, given twice; sort_by_file_path; DirEntry attributes; \
+         standard_filters(true) with hidden files, .gitignore / .ignore / .git/info/exclude and richer patterns; \
+         directories with mode r-- / --x; skip_stdout with stdout redirected into the tree. Compared as sorted \
+         multisets. Non-trivial: >= 2 options set and >= 3 entries reachable. Distinct by case text.",
     );
     let shm = {
         let p = PathBuf::from("/dev/shm");
@@ -1115,7 +1541,25 @@ fn main() {
     let mut env = Env { scratch: args.scratch.join("c06"), shm: shm.clone(), counter: 0, current: None };
     std::fs::create_dir_all(&env.scratch).unwrap();
 
+    let probe_line = |line: &str| -> Option<(String, u64)> {
+        let rest = line.strip_prefix("probe ")?;
+        let mut kind = None;
+        let mut seed = None;
+        for tok in rest.split_whitespace() {
+            let (k, v) = tok.split_once('=')?;
+            match k {
+                "kind" => kind = Some(v.to_string()),
+                "seed" => seed = v.parse().ok(),
+                _ => return None,
+            }
+        }
+        Some((kind?, seed?))
+    };
     for line in corpus_cases(&args) {
+        if let Some((kind, seed)) = probe_line(&line) {
+            c06probe::run_probe(&kind, seed, &env.scratch, &mut rep);
+            continue;
+        }
         match parse_case(&line) {
             Some(c) => run_case(&c, &line, &mut env, &mut drv, &mut rep),
             None => rep.notes.push(format!("unparsable corpus case: {}", line)),
@@ -1124,7 +1568,7 @@ fn main() {
     if args.replay.is_none() {
         let mut rng = Rng::new(args.seed);
         // special shapes x all option combinations
-        for (m, a, r) in special_trees(has_alt) {
+        for (m, a, r) in special_trees(has_alt, args.thorough) {
             let main = parse_ts(&m).expect("special main");
             let alt = parse_ts(&a).expect("special alt");
             for cfg in all_cfgs() {
@@ -1139,6 +1583,16 @@ fn main() {
                 run_case(&c, &text, &mut env, &mut drv, &mut rep);
             }
         }
+        // probes of what the modelled stream does not generate (see c06probe.rs)
+        let per_kind = if args.cases.is_some() { 30 } else if args.thorough { 400 } else { 40 };
+        for kind in ["f26", "f27"] {
+            c06probe::run_probe(kind, 0, &env.scratch, &mut rep);
+        }
+        for kind in ["roots", "sort", "attrs", "stdf", "perm", "stdout"] {
+            for i in 0..per_kind {
+                c06probe::run_probe(kind, args.seed * 100_000 + i as u64, &env.scratch, &mut rep);
+            }
+        }
         // random trees
         let trees = args.cases.unwrap_or(if args.thorough { 3000 } else { 250 });
         for i in 0..trees {
@@ -1147,7 +1601,7 @@ fn main() {
             for j in 0..per {
                 let c = Case {
                     cfg: gen_cfg(&mut rng),
-                    threads: rng.range(1, 16),
+                    threads: rng.range(0, 16),
                     roots: roots.clone(),
                     main: main.clone(),
                     alt: alt.clone(),
@@ -1160,7 +1614,8 @@ fn main() {
             }
         }
     }
-    if let Some((_, a, _, _, _, _)) = env.current.take() {
+    if let Some((_, a, _, _, _, _, _)) = env.current.take() {
+        umount_all();
         let _ = std::fs::remove_dir_all(a.main.parent().unwrap());
         let _ = std::fs::remove_dir_all(a.alt.parent().unwrap());
     }
